@@ -192,6 +192,7 @@ func runC04(w *World, tier string) (bool, interface{}) {
 		}
 	}
 	c.L.Faults.PermuteResults = true
+	c.L.Faults.BoardDownAtSubmit = w.Tape.Bool(1, 2, "boardOutages") // single submissions refused by the board; operators submit again
 	members := AllMembers(n)
 	// round A
 	roundA, rep := c.StartDKG(w.Tape.Choose(n, "proposer"), t, members)
